@@ -127,7 +127,7 @@ func (ex *Exec) simpleCallee(cc *ssa.CallCommon) bool {
 		if f.Blocks == nil {
 			if strings.HasPrefix(f.Name(), "verif") {
 				switch f.Name() {
-				case "verifImplies", "verifAnd", "verifOr", "verifIte32", "verifIte64", "verifIteInt", "verifStrByte", "verifParam":
+				case "verifImplies", "verifAnd", "verifOr", "verifIte32", "verifIte64", "verifIteInt", "verifStrByte", "verifParam", "verifLoad32", "verifByteAt":
 					return true
 				}
 			}
